@@ -602,10 +602,14 @@ fn run_scenario(sc: &Scenario, root: &Path, jj: &Path, variant: usize) -> (Strin
                         let (sc_, sl) = small.split_once('|').unwrap_or(("", ""));
                         bc == sc_ && sl.lines().all(|l| bl.lines().any(|x| x == l))
                     };
-                    let state = if sig_changed && contains(&sig_now, &sig_after) {
+                    let state = if sig_now == sig_before {
+                        0
+                    } else if sig_now == sig_after {
                         1
                     } else if contains(&sig_now, &sig_before) {
                         0
+                    } else if contains(&sig_now, &sig_after) {
+                        1
                     } else {
                         2
                     };
